@@ -131,7 +131,7 @@ class MultiHeadAttention(nn.Module):
             k,
             v,
             attn_mask=attn_mask,
-            dropout_p=self.attention_dropout,
+            dropout_p=self.attention_dropout if self.training else 0.0,
         )
         return self.out_proj(rearrange(out, "b h s d -> b s (h d)"))
 
@@ -216,7 +216,7 @@ class MultiHeadCrossAttention(nn.Module):
             v,
             attn_mask=cross_attn_mask,
             dmat=dmat,
-            dropout_p=self.attention_dropout,
+            dropout_p=self.attention_dropout if self.training else 0.0,
         )
         return self.out_proj(rearrange(out, "b h s d -> b s (h d)"))
 
